@@ -42,6 +42,18 @@ def check(run: Run) -> None:
 
     # ---------------- R1
     n_sinks = 0
+    # an enumerated source-text sink keeps its status when its code is moved into a private helper that nothing else calls
+    from ..lib import call_sites_of, unit
+
+    allowed = {}
+    for q_, why_ in NON_VALUE_SINKS.items():
+        F = m.funcs.get(q_)
+        if F is None:
+            continue
+        u_ = unit(m, F)
+        for g_ in u_:
+            if g_ is F or all(any(c_ is x for x in u_) for c_, _call, _sk in call_sites_of(m, g_)):
+                allowed[g_.qual] = why_
     for fi in m.funcs.values():
         fa = None
         for c in calls_in(fi):
@@ -58,8 +70,8 @@ def check(run: Run) -> None:
             if not fa.cfg.has_node(c):
                 continue
             t = strip_sites(fa.term_of(c.args[0]))
-            if fi.qual in NON_VALUE_SINKS:
-                run.ok("C13.R1", fi, f"{name}: enumerated source-text sink ({NON_VALUE_SINKS[fi.qual]})", show(t)[:200])
+            if fi.qual in allowed:
+                run.ok("C13.R1", fi, f"{name}: enumerated source-text sink ({allowed[fi.qual]})", show(t)[:200])
                 continue
             bad = _unescaped_flows(t)
             if fi.name == "as_ast":
